@@ -36,7 +36,7 @@ func NewEnv(tag string) *Env {
 	rig.Quiet()
 	root, _ := os.MkdirTemp("", "verif-"+tag)
 	s := rig.Start(root, true)
-	s.Register("c11m/*/*", true, 3600, 1, 8192)   // in-memory swamps
+	s.Register("c11m/*/*", true, 3600, 1, 8192)      // in-memory swamps
 	s.Register("c11d/*/*", false, 3600, 3600, 65536) // persistent, never flushed during a case
 	return &Env{S: s, Root: root}
 }
@@ -133,17 +133,26 @@ func (e *Env) SeedAnchor(swamp string) { e.Seed(swamp, Anchor, "anchor", -1, tim
 type PatchItem struct {
 	Key    string
 	Status string
+	Touch  bool // instead of setting status: SET touched = 1 (leaves status as it is / as seeded)
 }
 
 // PatchStatus runs one PatchTreasures batch. create => CreateIfNotExist.
 func (e *Env) PatchStatus(swamp string, items []PatchItem, cap *hydrapb.Cap, create bool, meta *hydrapb.PatchMeta) (*hydrapb.PatchTreasuresResponse, error) {
+	return e.PatchStatusSeed(swamp, items, cap, create, meta, nil)
+}
+
+// PatchStatusSeed is PatchStatus with an InitialMsgpackOnCreate seed body (nil = default).
+func (e *Env) PatchStatusSeed(swamp string, items []PatchItem, cap *hydrapb.Cap, create bool, meta *hydrapb.PatchMeta, seed []byte) (*hydrapb.PatchTreasuresResponse, error) {
 	ps := make([]*hydrapb.TreasurePatch, 0, len(items))
 	for _, it := range items {
-		ps = append(ps, &hydrapb.TreasurePatch{Key: it.Key, Ops: []*hydrapb.PatchOp{
-			{Op: hydrapb.PatchOp_SET, Path: "status", Value: Enc(it.Status)}}})
+		op := &hydrapb.PatchOp{Op: hydrapb.PatchOp_SET, Path: "status", Value: Enc(it.Status)}
+		if it.Touch {
+			op = &hydrapb.PatchOp{Op: hydrapb.PatchOp_SET, Path: "touched", Value: Enc(int64(1))}
+		}
+		ps = append(ps, &hydrapb.TreasurePatch{Key: it.Key, Ops: []*hydrapb.PatchOp{op}})
 	}
 	return e.S.GW.PatchTreasures(context.Background(), &hydrapb.PatchTreasuresRequest{
-		IslandID: Island, SwampName: swamp, CreateIfNotExist: create, Patches: ps, Cap: cap, Meta: meta})
+		IslandID: Island, SwampName: swamp, CreateIfNotExist: create, InitialMsgpackOnCreate: seed, Patches: ps, Cap: cap, Meta: meta})
 }
 
 // SetExpiry changes only the expiry of an existing record (zero time clears it).
@@ -353,9 +362,9 @@ func Keys(rs []Rec) []string {
 type Ctl struct {
 	mu     sync.Mutex
 	fn     map[int]func()
-	gid    map[int64]int            // goroutine id -> thread
-	stop   map[int]map[string]bool  // thread -> sites at which it parks next
-	parked map[int]chan struct{}    // thread -> release channel (present while parked)
+	gid    map[int64]int           // goroutine id -> thread
+	stop   map[int]map[string]bool // thread -> sites at which it parks next
+	parked map[int]chan struct{}   // thread -> release channel (present while parked)
 	at     map[int]string
 	done   map[int]chan struct{}
 }
